@@ -66,4 +66,9 @@ Section M.
   (* before fb04a24 a run without streams wrote a nil value as it was *)
   Definition m_convert_entry_v0 (isStream : bool) (v : dyn V) : res (dyn V) :=
     if isStream then match v with DStream items => m_concat_stream items | _ => Err eDynType end else Ok v.
+
+  (* before 57995e9 (F-C05h) a run without streams did not pass the entries of a CHANNEL through restore at all
+     (streamConverter.restoreOutputs returned early); pending inputs were passed through it *)
+  Definition m_restore_channel_entry_v0 (isStream : bool) (v : dyn V) : res (dyn V) :=
+    if isStream then m_restore_entry isStream v else Ok v.
 End M.
